@@ -914,6 +914,23 @@ func (ce *cenv) pseudo(name string, x *ast.CallExpr) (Val, bool) {
 			cs = append(cs, not(ex.chainTerm(v, ex.w.typeID(t))))
 		}
 		return boolVal(and(cs...)), true
+	case "onlyRepoErrs": // onlyRepoErrs(err, T1, ...): of the module's error types only T1... may occur in the chain
+		v := arg(0)
+		allowed := map[int]bool{}
+		for _, a := range x.Args[1:] {
+			t := ce.resolveType(a)
+			if t == nil {
+				ce.fail(x, "unknown type in onlyRepoErrs()")
+			}
+			allowed[ex.w.typeID(t)] = true
+		}
+		var cs []string
+		for _, t := range ex.w.errTypes {
+			if id := ex.w.typeID(t); !allowed[id] {
+				cs = append(cs, not(ex.chainTerm(v, id)))
+			}
+		}
+		return boolVal(and(cs...)), true
 	case "isDeadline": // errors.Is(err, os.ErrDeadlineExceeded)
 		return boolVal(ex.chainTerm(arg(0), chainDeadline)), true
 	case "wraps": // wraps(err, cause): cause is in the chain of err
@@ -1030,10 +1047,43 @@ func (ce *cenv) pseudo(name string, x *ast.CallExpr) (Val, bool) {
 			v.L[j] = ex.heapGet(ce.st, rk, l.Sort)
 		}
 		return v, true
+	case "ncalls": // ncalls(fn): number of contract calls of fn made so far by this unit
+		fn := fnNameArg(x.Args[0])
+		key := "X|ncalls." + fn
+		ex.registerKey(key, sInt)
+		return intVal(ex.heapGet(ce.st, key, sInt)), true
+	case "lastres": // lastres(fn, i): i-th result of the most recent contract call of fn
+		fn := fnNameArg(x.Args[0])
+		idx, _ := strconv.Atoi(types.ExprString(x.Args[1]))
+		rt, ok := ex.lastResTypes[fmt.Sprintf("%s.%d", fn, idx)]
+		if !ok {
+			sig := ex.contractSig(ce.pkg, fn)
+			if sig == nil || idx >= sig.Results().Len() {
+				ce.fail(x, "no contract named "+fn)
+			}
+			rt = sig.Results().At(idx).Type()
+		}
+		ls := leaves(rt)
+		v := Val{T: rt, L: make([]string, len(ls))}
+		for j, l := range ls {
+			rk := fmt.Sprintf("X|lastres.%s.%d.%d", fn, idx, j)
+			ex.registerKey(rk, l.Sort)
+			v.L[j] = ex.heapGet(ce.st, rk, l.Sort)
+		}
+		return v, true
 	case "lastarg": // lastarg(fn, param): argument passed for `param` in the most recent contract call of fn
-		fn := types.ExprString(x.Args[0])
+		fn := fnNameArg(x.Args[0])
 		pn := x.Args[1].(*ast.Ident).Name
 		info, ok := ex.lastArgTypes[fn+"."+pn]
+		if !ok {
+			if sig := ex.contractSig(ce.pkg, fn); sig != nil {
+				for i := 0; i < sig.Params().Len(); i++ {
+					if sig.Params().At(i).Name() == pn {
+						info, ok = sig.Params().At(i).Type(), true
+					}
+				}
+			}
+		}
 		if !ok {
 			ce.fail(x, "no recorded call of "+fn+" with parameter "+pn)
 		}
@@ -1221,4 +1271,49 @@ func orientQuant(q, bv, rng, body string, rec *qRecord) string {
 		return and(parts...)
 	}
 	return parts[0]
+}
+
+// fnNameArg: a contract name given as an expression (T.M, f) or, for closures, as a string literal ("F$1").
+func fnNameArg(e ast.Expr) string {
+	if bl, ok := e.(*ast.BasicLit); ok && bl.Kind == token.STRING {
+		s, _ := strconv.Unquote(bl.Value)
+		return s
+	}
+	return types.ExprString(e)
+}
+
+// contractSig finds the signature of the function a contract (by name, in package pkg) describes.
+func (ex *Exec) contractSig(pkg *ssa.Package, name string) *types.Signature {
+	if pkg != nil {
+		if s := ex.contractSig0(pkg, name); s != nil {
+			return s
+		}
+	}
+	return ex.contractSig0(nil, name)
+}
+
+func (ex *Exec) contractSig0(pkg *ssa.Package, name string) *types.Signature {
+	for _, c := range ex.w.allContracts {
+		if c.Name != name || (pkg != nil && c.Pkg != pkg) {
+			continue
+		}
+		if c.Fn != nil {
+			return c.Fn.Signature
+		}
+		if c.IfaceKey != "" && c.Pkg != nil {
+			parts := strings.Split(name, ".")
+			if len(parts) == 2 {
+				if o := c.Pkg.Pkg.Scope().Lookup(parts[0]); o != nil {
+					if it, ok := o.Type().Underlying().(*types.Interface); ok {
+						for i := 0; i < it.NumMethods(); i++ {
+							if it.Method(i).Name() == parts[1] {
+								return it.Method(i).Type().(*types.Signature)
+							}
+						}
+					}
+				}
+			}
+		}
+	}
+	return nil
 }
